@@ -89,6 +89,24 @@ impl FromStr for CsrImm {
     }
 }
 
+impl Imm {
+    /// Apply a sign to a parsed magnitude.
+    ///
+    /// Exactly the values that fit in 32 bits are accepted: anything in
+    /// `[-2^31, 2^32)`, read as a two's-complement 32-bit value.
+    fn from_signed_magnitude(negative: bool, magnitude: i64) -> Result<Self, ()> {
+        let value = if negative { -magnitude } else { magnitude };
+        if let Ok(i) = i32::try_from(value) {
+            Ok(Imm(i))
+        } else if let Ok(u) = u32::try_from(value) {
+            #[allow(clippy::cast_possible_wrap)]
+            Ok(Imm(u as i32))
+        } else {
+            Err(())
+        }
+    }
+}
+
 impl FromStr for Imm {
     type Err = ();
 
@@ -96,10 +114,10 @@ impl FromStr for Imm {
         let s = s.to_lowercase();
         let s = s.as_str();
         let s = s.trim();
-        let (s, mul) = if let Some(stripped) = s.strip_prefix('-') {
-            (stripped, -1)
+        let (s, negative) = if let Some(stripped) = s.strip_prefix('-') {
+            (stripped, true)
         } else {
-            (s, 1)
+            (s, false)
         };
 
         if s == "zero" {
@@ -109,8 +127,7 @@ impl FromStr for Imm {
                 Err(())
             } else {
                 match u32::from_str_radix(stripped, 16) {
-                    #[allow(clippy::cast_possible_wrap)]
-                    Ok(i) => Ok(Imm(mul * i as i32)),
+                    Ok(i) => Imm::from_signed_magnitude(negative, i64::from(i)),
                     Err(_) => Err(()),
                 }
             }
@@ -119,8 +136,7 @@ impl FromStr for Imm {
                 Err(())
             } else {
                 match u32::from_str_radix(stripped, 2) {
-                    #[allow(clippy::cast_possible_wrap)]
-                    Ok(i) => Ok(Imm(mul * i as i32)),
+                    Ok(i) => Imm::from_signed_magnitude(negative, i64::from(i)),
                     Err(_) => Err(()),
                 }
             }
@@ -128,8 +144,8 @@ impl FromStr for Imm {
             if s.starts_with('-') {
                 return Err(());
             }
-            match s.parse::<i32>() {
-                Ok(i) => Ok(Imm(mul * i)),
+            match s.parse::<u32>() {
+                Ok(i) => Imm::from_signed_magnitude(negative, i64::from(i)),
                 Err(_) => Err(()),
             }
         }
